@@ -632,23 +632,23 @@ Section FixedLink.
       split; auto. rewrite <- (fixed_H1 _ _ _ _ _ Sy). exact Sf.
   Qed.
 
-  Definition l0 (src dst : nat) := c06_link_init_fixed buf src dst f entries ridx.
+  Definition l0 (src dst own : nat) := c06_link_init_fixed buf src dst f own entries ridx.
 
   Definition FInv (l : c06_link) : Prop :=
     l_sph l = true /\
-    ((l_rph l = false /\ (l_fs l = FsPending f \/ l_fs l = FsMatched f) /\ l_rreq l = RNull /\ l_r l = RWaitFixed ridx /\
+    ((l_rph l = false /\ (l_fs l = FsPending f \/ l_fs l = FsMatched f) /\ l_rreq l = RNull /\ (exists own, l_r l = RWaitFixed own ridx) /\
       exists sent, c06_send_setup buf (mkS f entries []) = (l_s l, l_sreq l, sent))
      \/ (l_rph l = true /\ l_fs l = FsDone /\ LInv buf (Sync_fixed buf f all) l)).
 
-  Lemma FInv_init : forall src dst, FInv (l0 src dst).
+  Lemma FInv_init : forall src dst own, FInv (l0 src dst own).
   Proof.
     intros. unfold l0, c06_link_init_fixed. destruct (c06_send_setup buf (mkS f entries [])) as [[s1 q] sent] eqn:E.
-    split; [reflexivity|]. left. simpl. repeat split; auto. eauto.
+    split; [reflexivity|]. left. simpl. repeat split; eauto.
   Qed.
 
   Lemma FInv_step : forall l e l', FInv l -> c06_lstep buf fixnew l e = Some l' -> FInv l'.
   Proof.
-    intros l e l' [Sp [[Rp [Fs [Rq [Rr [sent E]]]]]|[Rp [Fs I]]]] H.
+    intros l e l' [Sp [[Rp [Fs [Rq [[own Rr] [sent E]]]]]|[Rp [Fs I]]]] H.
     - (* before the fixedSize scalar has been reported *)
       destruct l as [src dst s sq sph r rq rph fs snt]. simpl in *. subst.
       pose proof fixed_initok as IO. pose proof (LInv_init buf (Sync_fixed buf f all) _ _ src dst true true FsDone IO) as LI.
@@ -680,7 +680,7 @@ Section FixedLink.
   Lemma FInv_final : forall l, FInv l -> (forall e, c06_lstep buf fixnew l e = None) ->
     c06_link_quiet l = true /\ c06_log l = all.
   Proof.
-    intros l [Sp [[Rp [Fs [Rq [Rr _]]]]|[Rp [Fs I]]]] St.
+    intros l [Sp [[Rp [Fs [Rq [[own Rr] _]]]]|[Rp [Fs I]]]] St.
     - exfalso. destruct l as [src dst s sq sph r rq rph fs snt]. simpl in *. subst.
       destruct Fs as [->| ->].
       + specialize (St LFsMatch). unfold c06_lstep in St. simpl in St. discriminate.
@@ -692,10 +692,11 @@ Section FixedLink.
 End FixedLink.
 
 (* ------------------------------------------------------------------ the global system in fixed-size mode is the product of its links *)
-Record c06_fdesc := mkFD { d_src : nat; d_dst : nat; d_f : nat; d_entries : list (list nat); d_ridx : list nat }.
+(* d_f: the size the sender announces; d_own: the value the receiver's tracker starts with (the receiver's own size) *)
+Record c06_fdesc := mkFD { d_src : nat; d_dst : nat; d_f : nat; d_own : nat; d_entries : list (list nat); d_ridx : list nat }.
 
 Definition fixed_cfg (buf : nat) (fixnew : bool) (ds : list c06_fdesc) (np : nat) : c06_cfg :=
-  mkC buf fixnew (map (fun d => c06_link_init_fixed buf (d_src d) (d_dst d) (d_f d) (d_entries d) (d_ridx d)) ds) (repeat true np).
+  mkC buf fixnew (map (fun d => c06_link_init_fixed buf (d_src d) (d_dst d) (d_f d) (d_own d) (d_entries d) (d_ridx d)) ds) (repeat true np).
 
 Definition FRel (buf : nat) (d : c06_fdesc) (l : c06_link) : Prop :=
   c06_link_ok_fixed buf (d_f d) (d_entries d) (d_ridx d) = true /\ FInv buf (d_f d) (d_entries d) (d_ridx d) l.
